@@ -51,6 +51,8 @@ def do_replay(rec):
     lib, rest = unit.split(":", 1)
     cls, fn = rest.split(".", 1)
     model = rec.get("model") or {}
+    if lib in ("nodes", "edges") and fn == "__init__" and cls in INIT_CLASSES and isinstance(model.get("args"), dict):
+        return replay_init(rec, cls, model["args"])
     if lib != "stores" or cls not in CLASSES or not model.get("entry"):
         rec["replay_note"] = "no native replayer for this unit"
         return
@@ -211,6 +213,119 @@ def do_replay(rec):
                               "the refuted clause is false in that state")
         return
     rec["replay_note"] = "native run did not reproduce the predicted exit state"
+
+
+# ---------------------------------------------------------------------------------------------------------------
+# constructors of nodes and edges: the counter-model is an argument tuple; build it natively, call the real
+# constructor and judge the refuted clause on the real outcome
+INIT_CLASSES = {
+    "Node": ("factorysimpy.nodes.node", "Node"), "Source": ("factorysimpy.nodes.source", "Source"),
+    "Machine": ("factorysimpy.nodes.machine", "Machine"), "Splitter": ("factorysimpy.nodes.splitter", "Splitter"),
+    "Combiner": ("factorysimpy.nodes.combiner", "Combiner"), "Sink": ("factorysimpy.nodes.sink", "Sink"),
+    "Edge": ("factorysimpy.edges.edge", "Edge"), "Buffer": ("factorysimpy.edges.buffer", "Buffer"),
+    "Fleet": ("factorysimpy.edges.fleet", "Fleet"),
+}
+
+
+def native_arg(name, v):
+    import itertools
+    if isinstance(v, dict) and "dyn" in v:
+        k = v["dyn"]
+        if k == "none":
+            return None
+        if k == "int":
+            return int(num(v.get("num", 0)))
+        if k == "float":
+            return float(num(v.get("num", 0)))
+        if k == "bool":
+            return bool(num(v.get("num", 0)))
+        if k == "str":
+            x = v.get("str")
+            return x if isinstance(x, str) else "str%s" % x
+        if k == "callable":
+            return lambda *a, **kw: 1.0
+        if k == "generator":
+            return (x for x in itertools.repeat(1.0))
+        return object()
+    if isinstance(v, list):
+        return [Obj("edge", x) for x in v]
+    if isinstance(v, str) and name in ("flow_item_type", "mode"):
+        return v
+    if isinstance(v, (int, str)) and not isinstance(v, bool):
+        try:
+            x = num(v)
+            return int(x) if float(x).is_integer() and "/" not in str(v) and "." not in str(v) else x
+        except Exception:
+            return v
+    return v
+
+
+def replay_init(rec, cls, margs):
+    import importlib
+    import inspect
+    import simpy
+    modname, cname = INIT_CLASSES[cls]
+    K = getattr(importlib.import_module(modname), cname)
+    env = simpy.Environment()
+    kwargs = {}
+    params = inspect.signature(K.__init__).parameters
+    for k, v in margs.items():
+        if k in ("env", "self") or k not in params:
+            continue
+        kwargs[k] = native_arg(k, v)
+    shown = {k: (v if isinstance(v, (int, float, str, bool, type(None))) else repr(v)[:40]) for k, v in kwargs.items()}
+    out = io.StringIO()
+    obj, exc = None, None
+    with contextlib.redirect_stdout(out):
+        try:
+            obj = K(env, **kwargs)
+        except Exception as e:      # noqa
+            exc = e
+    name = rec["obligation"]
+    rec["replay_stdout"] = "constructor call: %s(env, %s) -> %s" % (cname, ", ".join("%s=%r" % kv for kv in shown.items()),
+                                                                     ("raised " + type(exc).__name__ + ": " + str(exc)[:120]) if exc else "constructed")
+    failing = None
+    if "must-raise" in name or "normal-requires" in name:
+        failing = exc is None
+        why = "the configuration the contract rejects was accepted by the real constructor"
+    elif ".no-" in name or "allowed-when" in name:
+        failing = exc is not None
+        why = "the real constructor raised for a configuration the contract accepts"
+    elif exc is None and ".post." in name:
+        clause = name.split(".post.", 1)[1]
+        failing, why = judge_init_post(obj, env, kwargs, clause)
+    if failing is None:
+        rec["replay_note"] = "constructor called natively; no native judge for this clause"
+        return
+    rec["replayed"] = bool(failing)
+    rec["replay_note"] = (why if failing else "the real constructor does not show the failure for this argument tuple")
+
+
+def judge_init_post(obj, env, kw, clause):
+    st = getattr(obj, "stats", {}) or {}
+    tt = st.get("total_time_spent_in_states", {})
+    if clause.endswith("-recorded-as-given"):
+        attr = clause[:-len("-recorded-as-given")].replace("-", "_")
+        if attr in kw and hasattr(obj, attr):
+            a, b = getattr(obj, attr), kw[attr]
+            same = (a is b) if callable(b) or hasattr(b, "__next__") else (a == b and type(a) == type(b))
+            return (not same), "attribute %s is %r but %r was given" % (attr, a, b)
+        return None, ""
+    if clause == "accounting-starts-at-zero":
+        bad = []
+        if any(v != 0 for v in tt.values()):
+            bad.append("totals %r" % tt)
+        if type(obj).__name__ in ("Splitter", "Combiner") and st.get("last_state_change_time") != env.now:
+            bad.append("last_state_change_time is %r, construction time is %r" % (st.get("last_state_change_time"), env.now))
+        return bool(bad), "; ".join(bad)
+    if clause == "counters-start-at-zero":
+        bad = [k for k in ("num_item_processed", "num_item_discarded", "num_item_generated", "num_item_received") if st.get(k, 0) != 0]
+        return bool(bad), "counters not zero: %s" % bad
+    if clause == "capacity-recorded":
+        return getattr(obj, "capacity", None) != kw.get("capacity", 1), "capacity %r recorded for %r" % (getattr(obj, "capacity", None), kw.get("capacity"))
+    if clause == "mode-recorded":
+        return getattr(obj, "mode", None) != kw.get("mode", "FIFO"), "mode %r recorded" % getattr(obj, "mode", None)
+    return None, ""
 
 
 def norm(v):
